@@ -33,7 +33,7 @@ ASSUMPTIONS = [
 ]
 REQUIRED_CLASSES = {"fill:nan": 25, "fill:inf": 25, "fill:-inf": 20, "fill:1e30": 25, "pad:extra": 120, "down:fit": 50, "down:mstep": 60,
                     "down:scipy_minimize": 30, "down:mean_posterior": 20, "down:mode_posterior": 20, "kind:bernoulli": 40, "kind:joint": 40,
-                    "noise:scalar-multivariate": 30, "nontrivial": 40}
+                    "noise:scalar-multivariate": 30, "down:noise-over-fit": 30, "nontrivial": 40}
 
 FILLS = {"0": 0.0, "1": 1.0, "-7.5": -7.5, "0.5": 0.5, "1e30": 1e30, "nan": float("nan"), "inf": float("inf"), "-inf": float("-inf")}
 
@@ -275,15 +275,44 @@ def shard_run(kinds, seed: int, n_examples: int, shard: int = 0, bernoulli: bool
     return col
 
 
+def shard_noise(kinds, seed: int, n_examples: int, shard: int = 0):
+    """ "Observation counts and noise estimates use observed entries only" along whole fits (memory-less phase, first iteration
+    with memory, averaged statistics): the per-iteration float64 oracle of C04 restricted to the noise level, on generated cohorts.
+    (A metamorphic fill/padding relation cannot see a noise estimate that wrongly includes *model* values at missing entries.)"""
+    env.import_leaspy()
+    from vf.checks import c04
+
+    col = Collector(PROP, f"noise-over-fit-{'+'.join(kinds)}-{shard}")
+
+    def body_noise(c, case):
+        before = len(c.failures)
+        c04.body(c, case)
+        for f in c.failures[before:]:
+            f["sub_check"] = "noise-over-fit"
+        c.cls("down:noise-over-fit")
+
+    drive(col, c04.fit_case(tuple(kinds)), body_noise, n_examples=n_examples, seed=shard_seed(seed, shard, 66))
+    return col
+
+
 def shards(tier: str, seed: int):
     n = dict(quick=55, thorough=700)[tier]
     sets = [(("logistic",), False), (("joint",), False), (("logistic",), True), (("linear",), False), (("shared_speed_logistic",), False),
             (("logistic", "joint"), False), (("logistic",), True), (("joint",), False)]
-    return [(MOD, "shard_run", dict(kinds=sets[k % len(sets)][0], bernoulli=sets[k % len(sets)][1], seed=seed, n_examples=n, shard=k)) for k in range(16)]
+    specs = [(MOD, "shard_run", dict(kinds=sets[k % len(sets)][0], bernoulli=sets[k % len(sets)][1], seed=seed, n_examples=n, shard=k)) for k in range(16)]
+    m = dict(quick=12, thorough=150)[tier]
+    for k, ks in enumerate([("logistic",), ("linear", "logistic"), ("joint",), ("shared_speed_logistic", "logistic")]):
+        specs.append((MOD, "shard_noise", dict(kinds=ks, seed=seed, n_examples=m, shard=100 + k)))
+    return specs
 
 
 def replay(sub_check: str, inp):
     env.import_leaspy()
     col = Collector(PROP, "replay")
-    body(col, inp)
+    if sub_check in ("noise-over-fit", "m-step", "fit"):
+        from vf.checks import c04
+
+        c04.body(col, {k: v for k, v in inp.items() if k != "iteration"})
+    else:
+        body(col, inp)
     return col.failures
